@@ -29,6 +29,7 @@
 static char *hwv_buf; static size_t hwv_len, hwv_cap; static int hwv_fd = -1;
 static volatile int *hwv_progress;       /* shared: index of the behaviour being run */
 static int hwv_watchdog = 20;             /* seconds per behaviour */
+static int hwv_beh_base;                  /* added to behaviour indexes (parallel recorders) */
 
 static size_t hwv_commit;                 /* bytes of complete events in hwv_buf */
 static void hwv_flush(void) {             /* writes complete events only */
@@ -94,8 +95,8 @@ static const char *errname(int e) {
 static void hwv_on_signal(int sig) {
   char line[96]; int n;
   hwv_flush();
-  if (sig == SIGALRM) n = snprintf(line, sizeof line, "{\"e\":\"Hang\",\"beh\":%d}\n", hwv_progress ? *hwv_progress : -1);
-  else n = snprintf(line, sizeof line, "{\"e\":\"Crash\",\"sig\":%d,\"beh\":%d}\n", sig, hwv_progress ? *hwv_progress : -1);
+  if (sig == SIGALRM) n = snprintf(line, sizeof line, "{\"e\":\"Hang\",\"beh\":%d}\n", hwv_progress ? *hwv_progress + hwv_beh_base : -1);
+  else n = snprintf(line, sizeof line, "{\"e\":\"Crash\",\"sig\":%d,\"beh\":%d}\n", sig, hwv_progress ? *hwv_progress + hwv_beh_base : -1);
   if (write(hwv_fd, line, (size_t)n) < 0) {}
   _exit(77);
 }
@@ -143,6 +144,7 @@ static int hwv_run(const char *inpath, const char *outpath, hwv_handler h) {
   if (hwv_fd < 0) { perror(outpath); return 2; }
   hwv_progress = mmap(NULL, 4096, PROT_READ | PROT_WRITE, MAP_SHARED | MAP_ANONYMOUS, -1, 0);
   if (getenv("HWV_WATCHDOG")) hwv_watchdog = atoi(getenv("HWV_WATCHDOG"));
+  if (getenv("HWV_BEH_BASE")) hwv_beh_base = atoi(getenv("HWV_BEH_BASE"));
   while (next < f.nbeh) {
     pid_t pid; int st;
     *hwv_progress = (int)next;
@@ -156,7 +158,7 @@ static int hwv_run(const char *inpath, const char *outpath, hwv_handler h) {
         size_t s = f.beh_start[b], e = b + 1 < f.nbeh ? f.beh_start[b+1] : f.n;
         *hwv_progress = (int)b;
         alarm((unsigned)hwv_watchdog);
-        h(f.lines + s, e - s, (int)b);
+        h(f.lines + s, e - s, (int)b + hwv_beh_base);
         alarm(0);
         if (hwv_commit > (1u<<16)) hwv_flush();
       }
@@ -169,10 +171,15 @@ static int hwv_run(const char *inpath, const char *outpath, hwv_handler h) {
     if (!(WIFEXITED(st) && WEXITSTATUS(st) == 77)) {
       /* died without our handler (e.g. SIGKILL, _exit from a sanitizer): still a crash event */
       char line[96]; int n = snprintf(line, sizeof line, "{\"e\":\"Crash\",\"sig\":%d,\"beh\":%d}\n",
-                                      WIFSIGNALED(st) ? WTERMSIG(st) : -WEXITSTATUS(st), *hwv_progress);
+                                      WIFSIGNALED(st) ? WTERMSIG(st) : -WEXITSTATUS(st), *hwv_progress + hwv_beh_base);
       if (write(hwv_fd, line, (size_t)n) < 0) {}
     }
     next = (size_t)*hwv_progress + 1;
+    /* optional cap (HWV_MAX_CRASHES=n): stop after n crashed/hung behaviours; the remaining ones are not run */
+    if (getenv("HWV_MAX_CRASHES") && crashes >= atoi(getenv("HWV_MAX_CRASHES"))) {
+      fprintf(stderr, "hwv: stopping after %d crashed behaviours, %zu not run\n", crashes, f.nbeh - next);
+      break;
+    }
   }
   close(hwv_fd);
   fprintf(stderr, "hwv: %zu behaviours, %d crashed\n", f.nbeh, crashes);
